@@ -154,6 +154,10 @@ class ExprMixin(object):
             c = self.module_constant(d, st)
             if c is not None:
                 return [(st, c)]
+            sc = getattr(self.reg, "static_consts", {}).get(d)
+            if sc is not None:
+                # a module constant that is a fixed-length list of (symbolic) values: loops over it are unrolled
+                return [(st, V(STATIC, None, [core.ufun("const_" + n, [], t) for n, t in sc]))]
             ext = self.reg.externals.get(d)
             if ext is not None and ext != "drop" and not ext.params and ext.returns is not NONE:
                 if ext.pure:
